@@ -51,7 +51,7 @@ def splits(tier, cls, fn):
 
 
 def run_crosshair(cls, fn, line, tmo, fix=None):
-    env = dict(os.environ, C10_CLASS=cls, PYTHONPATH=ROOT, MPLBACKEND='Agg', PYTHONWARNINGS='ignore', PYTHONDONTWRITEBYTECODE='1')
+    env = dict(os.environ, C10_CLASS=cls, PYTHONPATH=os.environ.get('VERIF_REPO', '/repo') + os.pathsep + ROOT, MPLBACKEND='Agg', PYTHONWARNINGS='ignore', PYTHONDONTWRITEBYTECODE='1')
     fix = dict(fix or {})
     tmo = tmo * int(fix.pop('_tmo', 1))
     env.update(fix)
@@ -85,7 +85,7 @@ def replay(cls, fn, args):
     """native call of the contract with the printed arguments in a fresh interpreter"""
     code = (f"import os; os.environ['C10_CLASS']={cls!r}\nimport sys; sys.path.insert(0, {ROOT!r})\n"
             f"import ch.c10_contracts as m\nr = m.{fn}({args})\nprint('REPLAY', r)")
-    env = dict(os.environ, PYTHONPATH=ROOT, MPLBACKEND='Agg', PYTHONWARNINGS='ignore', PYTHONDONTWRITEBYTECODE='1')
+    env = dict(os.environ, PYTHONPATH=os.environ.get('VERIF_REPO', '/repo') + os.pathsep + ROOT, MPLBACKEND='Agg', PYTHONWARNINGS='ignore', PYTHONDONTWRITEBYTECODE='1')
     p = subprocess.run([PY, '-c', code], capture_output=True, text=True, env=env, cwd=ROOT, timeout=120)
     if 'REPLAY False' in p.stdout:
         return True, 'returns False'
